@@ -391,9 +391,11 @@ where
 
             // Nothing is happening. We may be the first to start initializing.
             let attempt_signal = Arc::new(ManualResetEvent::new(EventState::Unset));
-            let attempt = RegionalValue::<T>::Initializing(Arc::clone(&attempt_signal));
+            let attempt = Some(Arc::new(RegionalValue::<T>::Initializing(Arc::clone(
+                &attempt_signal,
+            ))));
 
-            let previous_value = self.value.compare_and_swap(reader, Some(Arc::new(attempt)));
+            let previous_value = self.value.compare_and_swap(reader, attempt.clone());
 
             if !previous_value.is_none() {
                 // Someone raced ahead of us. Re-enter loop.
@@ -404,15 +406,21 @@ where
             // and signal any waiting threads to prevent them from waiting forever.
             let cleanup_signal = Arc::clone(&attempt_signal);
             let cleanup_self = self; // Create a reference for the cleanup
+            let cleanup_attempt = attempt.clone();
             let cleanup_guard = scopeguard::guard((), move |()| {
                 // If we are still in panic mode when this guard executes, reset the
                 // initializing state to None and signal waiters so they can retry.
-                cleanup_self.value.store(None);
+                // A value written by `set()` in the meantime is left in place.
+                cleanup_self.value.compare_and_swap(&cleanup_attempt, None);
                 cleanup_signal.set();
             });
 
+            // A `set()` may complete while the initializer is running. Such a write is newer
+            // than the initial value, so we only replace our own "initializing" marker and
+            // never a value that was written in the meantime.
             let new_value = RegionalValue::Ready(initializer());
-            self.value.store(Some(Arc::new(new_value)));
+            self.value
+                .compare_and_swap(&attempt, Some(Arc::new(new_value)));
 
             // We are done initializing. Notify all waiters that they can continue.
             attempt_signal.set();
@@ -806,5 +814,35 @@ mod tests {
             // Second thread should have succeeded.
             assert_eq!(result2, 42);
         });
+    }
+
+    #[test]
+    fn set_local_during_initialization_is_not_overwritten() {
+        use std::sync::Mutex;
+
+        static TARGET: Mutex<Option<RegionLocal<i32>>> = Mutex::new(None);
+
+        // Writes a new value into the region while the region is still being initialized,
+        // just like a `set_local()` on another thread that completes at that moment would.
+        fn writing_initializer() -> i32 {
+            let target = TARGET.lock().unwrap().take();
+
+            if let Some(target) = target {
+                target.set_local(2);
+            }
+
+            1
+        }
+
+        let hardware = SystemHardware::fake(
+            HardwareBuilder::new().processor(ProcessorBuilder::new().id(0).memory_region(0)),
+        );
+
+        let local = RegionLocal::with_hardware(writing_initializer, hardware);
+        *TARGET.lock().unwrap() = Some(local.clone());
+
+        // The write is newer than the initial value, so the initial value must not replace it.
+        assert_eq!(local.get_local(), 2);
+        assert_eq!(local.get_local(), 2);
     }
 }
